@@ -355,17 +355,42 @@ def _r3(run):
         else:
             run.holds("C06.R3", f, None, "Pyramid.%s forwards %s" % (name, ", ".join(fields)))
     # the generator hands depth / coordsys / filter to the TOAST enumeration
-    f = project.fn(P + ".Pyramid._generator")
+    f = common.splice(project, project.fn(P + ".Pyramid._generator"))
     run.note_func(f)
     r = evp.run(f.node)
     gens = [e for e in r.events if e.kind == "call" and e.term[1][0] == "attr" and e.term[1][2] in ("generate_tiles", "generate_tiles_filtered")]
-    okg = len(gens) == 2
+    tf = ("attr", ("sym", "self"), "_tile_filter")
+
+    def accepts_all(t):
+        # a module-level function (or lambda) that returns True for every tile
+        if t[0] == "sym":
+            g_ = project.funcs.get(P + "." + t[1])
+            if g_ is not None:
+                body_ = [x for x in g_.node.body if not (isinstance(x, ast.Expr) and isinstance(x.value, ast.Constant))]
+                return len(body_) == 1 and isinstance(body_[0], ast.Return) and isinstance(body_[0].value, ast.Constant) and body_[0].value.value is True
+        if t[0] == "lambda":
+            lam = [n_ for n_, _env in r.lambdas if id(n_) == t[2]]
+            return bool(lam) and isinstance(lam[0].body, ast.Constant) and lam[0].body.value is True
+        return False
+
+    def filter_ok(t):
+        if t == tf:
+            return True
+        # `self._tile_filter` where there is one, an accept-all function otherwise
+        if t[0] == "ite" and t[1] in (sym.cmp("Is", tf, sym.NONE),):
+            return accepts_all(t[2]) and t[3] == tf
+        return False
+    # one enumeration per case (unfiltered / filtered), or the filtered one alone with an accept-all stand-in
+    okg = len(gens) >= 1 and (len(gens) == 2 or any(e.term[1][2] == "generate_tiles_filtered" for e in gens))
     for e in gens:
+        b_ = evp.bound_args(e.term)[1] or {}
         kw = dict(e.term[3])
-        okg = okg and e.term[2] and e.term[2][0] == ("attr", ("sym", "self"), "depth") and kw.get("coordsys") == ("attr", ("sym", "self"), "_coordsys") \
+        depth_a = e.term[2][0] if e.term[2] else kw.get("depth")
+        okg = okg and depth_a == ("attr", ("sym", "self"), "depth") and kw.get("coordsys") == ("attr", ("sym", "self"), "_coordsys") \
             and kw.get("bottom_only") == ("const", False)
         if e.term[1][2] == "generate_tiles_filtered":
-            okg = okg and len(e.term[2]) > 1 and e.term[2][1] == ("attr", ("sym", "self"), "_tile_filter")
+            flt = e.term[2][1] if len(e.term[2]) > 1 else kw.get("filter")
+            okg = okg and flt is not None and filter_ok(flt)
     if okg:
         run.holds("C06.R3", f, None, "TOAST enumeration gets self.depth, self._tile_filter, coordsys=self._coordsys, bottom_only=False")
     else:
@@ -377,7 +402,7 @@ def _r4(run):
     """Nullness: the (Pos(0,0,0), None) item of a TOAST pyramid reaches the leaf callback when depth == 0."""
     project = run.project
     evp = sym.make_evaluator(project, P, [])
-    g = project.fn(P + ".Pyramid._generator")
+    g = common.splice(project, project.fn(P + ".Pyramid._generator"))
     r = evp.run(g.node)
     none_yields = [(pc, t, n) for pc, t, n in r.yields if t[0] == "tuple" and len(t[1]) == 2 and t[1][1] == sym.NONE
                    and any(c[0] == sym.cmp("Is", ("attr", ("sym", "self"), "_coordsys"), sym.NONE) and c[1] is False for c in pc if c[0] != "loop")]
